@@ -13,6 +13,7 @@ CONSTANTS
   MCScopes <- ScopesTop
   MCRoutes <- RoutesOne
   MCExits <- ExitsNo
+  MCIos <- IoOk
   Emitting = TRUE
 INVARIANT PContained
 INVARIANT PZeroIff
